@@ -25,4 +25,6 @@ MUTANTS = [
     m("c19-eq-no-class", "R3", "        return other is self or (\n            other.__class__ == self.__class__ and self._check_equality(other)\n        )", "        return other is self or self._check_equality(other)"),
     m("c19-twin-fresh-inplace", None, "        inv_matrix_vector = self.inv @ vector\n        return -np.outer(inv_matrix_vector, inv_matrix_vector)", "        inv_matrix_vector = self.inv @ vector\n        out = np.outer(inv_matrix_vector, inv_matrix_vector)\n        out *= -1\n        return out", twin=True),
     m("c19-twin-hash-order", None, "        return hash((self.factor, self.sign))", "        return hash((self.sign, self.factor))", twin=True),
+    m("c19-lu-scaled-in-place-unpacked", "R1", "        old_lu, piv = self._lu_and_piv\n        # Multiply upper-triangle by scalar\n        new_lu = old_lu + (scalar - 1) * np.triu(old_lu)\n", "        old_lu, piv = self._lu_and_piv\n        new_lu = old_lu\n        new_lu[np.triu_indices_from(new_lu)] *= scalar\n", key="inplace:self._lu_and_piv"),
+    m("c19-twin-lu-copy-then-inplace", None, "        old_lu, piv = self._lu_and_piv\n        # Multiply upper-triangle by scalar\n        new_lu = old_lu + (scalar - 1) * np.triu(old_lu)\n", "        old_lu, piv = self._lu_and_piv\n        new_lu = old_lu + 0.0\n        new_lu[np.triu_indices_from(new_lu)] *= scalar\n", twin=True),
 ]
